@@ -34,7 +34,7 @@ def main() -> int:
         return mod.replay(obj)
     chk = core.Check(pid, tier, seed, level=getattr(mod, "LEVEL", "proof"))
     try:
-        chk.lean = core.lean_prepare(pid, getattr(mod, "TRANSLATE", None))
+        chk.lean = core.lean_prepare(pid, getattr(mod, "TRANSLATE", None), tier)
         mod.run(chk)
     except core.DriverError as e:
         # the model driver could not be run: the correspondence is broken, not the property
